@@ -160,6 +160,13 @@ func runEnum(e *enumSpec, env *core.Env, res *core.Result) {
 }
 
 func registerEnum(e *enumSpec) {
+	simPool = append(simPool, func(env *core.Env, i int, r *rand.Rand) simCase {
+		sc := e.RandomCase(env, i, r)
+		// the generator of an enumeration check derives its workload from the options' seed
+		sc.Reseed = true
+		return sc
+	})
+	simPoolNames = append(simPoolNames, e.ID)
 	core.Register(&core.Check{
 		ID:    e.ID,
 		Level: "fault_enumeration",
